@@ -55,8 +55,8 @@ type Ctx struct {
 	CheckerCmd  string
 	Axioms      map[string][]string
 
-	Violations []Violation
-	Known      []string // KNOWN-FINDING lines printed
+	Violations  []Violation
+	Known       []string // KNOWN-FINDING lines printed
 	kf          []KnownFinding
 	budget      int
 	brokenFacts []brokenFact
